@@ -28,6 +28,7 @@ import (
 	"fmt"
 	"math"
 	"math/rand"
+	"runtime"
 	"sort"
 	"strconv"
 	"strings"
@@ -750,6 +751,21 @@ func execSkl(ops []string, st *Stats) ([]string, []string) {
 	var uni *skl.UniIterator
 	ref := &itRefMap{}
 	uniRev := false
+	// ValueStructs handed out by Get / iterators alias the arena: what was read once must
+	// never change, whatever is Put later.
+	type heldVal struct {
+		how         string
+		alias, snap []byte
+	}
+	var held []heldVal
+	hold := func(how string, v y.ValueStruct) {
+		if v.Value != nil {
+			held = append(held, heldVal{how, v.Value, y.Copy(v.Value)})
+			if len(held) > 64 {
+				held = held[1:]
+			}
+		}
+	}
 	closeAll := func() {
 		if it != nil {
 			it.Close()
@@ -782,6 +798,7 @@ func execSkl(ops []string, st *Stats) ([]string, []string) {
 			switch w[0] {
 			case "reset":
 				closeAll()
+				held = nil
 				l = skl.NewSkiplist(1 << 20)
 				it = l.NewIterator()
 				uni = l.NewUniIterator(false)
@@ -816,6 +833,13 @@ func execSkl(ops []string, st *Stats) ([]string, []string) {
 					st.Inc(fmt.Sprintf("put:new-h%d", h))
 				}
 				ops[i] = fmt.Sprintf("put %s %s %d", w[1], w[2], h)
+				for _, hv := range held {
+					if !bytes.Equal(hv.alias, hv.snap) {
+						fail(i, fmt.Sprintf("[skl-value-mutated] a ValueStruct obtained earlier by %s changed under this Put: was %s, now %s", hv.how, hx(hv.snap), hx(hv.alias)))
+						held = nil
+						break
+					}
+				}
 				// oracle: level 0 with values equals the sorted map
 				if len(levels) > 0 {
 					if len(levels[0]) != len(ref.es) {
@@ -833,6 +857,7 @@ func execSkl(ops []string, st *Stats) ([]string, []string) {
 			case "get":
 				k := unhx(w[1])
 				vs := l.Get(k)
+				hold("Get", vs)
 				out := hx(itEncVS(vs)) + " " + utoa(vs.Version)
 				want := "000000 0"
 				if j := ref.near(k, false, true); j >= 0 && y.SameKey(k, ref.es[j].key) {
@@ -969,6 +994,9 @@ func execSkl(ops []string, st *Stats) ([]string, []string) {
 					want = cur - 1
 				}
 				out := itIterStr(it.Valid(), it.Key, it.Value)
+				if it.Valid() {
+					hold("Iterator."+w[0], it.Value())
+				}
 				if out != ref.at(want) {
 					fail(i, fmt.Sprintf("[skl-iter-%s] iterator at %s, sorted map says %s", w[0], out, ref.at(want)))
 				}
@@ -1011,6 +1039,9 @@ func execSkl(ops []string, st *Stats) ([]string, []string) {
 					}
 				}
 				out := itIterStr(uni.Valid(), uni.Key, uni.Value)
+				if uni.Valid() {
+					hold("UniIterator."+w[0], uni.Value())
+				}
 				if out != ref.at(want) {
 					fail(i, fmt.Sprintf("[skl-uni-%s] UniIterator(reversed=%v) at %s, sorted map says %s", w[0], uniRev, out, ref.at(want)))
 				}
@@ -1023,16 +1054,31 @@ func execSkl(ops []string, st *Stats) ([]string, []string) {
 	return outs, oracle
 }
 
-
 // ---------------------------------------------------------------- sklstress (no model)
 
-// One op line per case: `stress <seed> <writers> <keys> <putsPerWriter> <readers>`.
-// Writers Put concurrently (overlapping key sets, values tagged writer/sequence), readers
-// concurrently run Get / forward / reverse iteration and check what they see.
+// One op line per case:
+//
+//	stress  <seed> <writers> <keys> <putsPerWriter> <readers>
+//	    writers Put concurrently (overlapping key sets, values tagged writer/sequence), readers
+//	    concurrently run Get / forward / reverse iteration and check what they see;
+//	torn    <seed> <writers> <hotkeys> <putsPerWriter> <readers>
+//	    writers overwrite a few hot internal keys with self-describing values of different
+//	    sizes (often strictly shrinking); readers keep the ValueStruct they got (it aliases
+//	    the arena), yield, and verify that it is exactly one put and never changes;
+//	tornseq <seed> <rounds>
+//	    the same, channel-sequenced (no luck involved): read, signal the writer to
+//	    overwrite with a shorter value, re-check the ValueStruct that was read.
 func genSklStress(rng *rand.Rand, n int, st *Stats) []string {
 	var ops []string
 	for c := 0; c < n; c++ {
-		ops = append(ops, fmt.Sprintf("stress %d %d %d %d %d", rng.Int63(), 2+rng.Intn(7), 4+rng.Intn(60), 200+rng.Intn(3000), 1+rng.Intn(4)))
+		switch c % 3 {
+		case 0:
+			ops = append(ops, fmt.Sprintf("stress %d %d %d %d %d", rng.Int63(), 2+rng.Intn(7), 4+rng.Intn(60), 200+rng.Intn(3000), 1+rng.Intn(4)))
+		case 1:
+			ops = append(ops, fmt.Sprintf("torn %d %d %d %d %d", rng.Int63(), 1+rng.Intn(4), 1+rng.Intn(4), 200+rng.Intn(1500), 1+rng.Intn(4)))
+		default:
+			ops = append(ops, fmt.Sprintf("tornseq %d %d", rng.Int63(), 2+rng.Intn(8)))
+		}
 	}
 	return ops
 }
@@ -1042,22 +1088,314 @@ func execSklStress(ops []string, st *Stats) ([]string, []string) {
 	var oracle []string
 	for i, line := range ops {
 		w := strings.Fields(line)
-		if len(w) != 6 || w[0] != "stress" {
+		var a []int
+		okArgs := len(w) >= 2
+		var seed int64
+		if okArgs {
+			var err error
+			seed, err = strconv.ParseInt(w[1], 10, 64)
+			okArgs = err == nil
+			for _, x := range w[min(2, len(w)):] {
+				v, err := strconv.Atoi(x)
+				if err != nil || v < 0 || v > 1<<20 {
+					okArgs = false
+				}
+				a = append(a, v)
+			}
+		}
+		var msgs []string
+		switch {
+		case okArgs && w[0] == "stress" && len(a) == 4:
+			msgs = itStressOnce(seed, a[0], a[1], a[2], a[3], st)
+		case okArgs && w[0] == "torn" && len(a) == 4 && a[0] >= 1 && a[1] >= 1:
+			msgs = itTornOnce(seed, a[0], a[1], a[2], a[3], st)
+		case okArgs && w[0] == "tornseq" && len(a) == 1:
+			msgs = itTornSeq(seed, a[0], st)
+		default:
 			outs[i] = "bad-op"
 			continue
 		}
-		seed, _ := strconv.ParseInt(w[1], 10, 64)
-		nw, _ := strconv.Atoi(w[2])
-		nk, _ := strconv.Atoi(w[3])
-		np, _ := strconv.Atoi(w[4])
-		nr, _ := strconv.Atoi(w[5])
-		msgs := itStressOnce(seed, nw, nk, np, nr, st)
+		st.Inc("op:" + w[0])
 		for _, m := range msgs {
 			oracle = append(oracle, fmt.Sprintf("line %d: %s :: %s", i+1, line, m))
 		}
 		outs[i] = fmt.Sprintf("ok %d", len(msgs))
 	}
 	return outs, oracle
+}
+
+// ---- self-describing values: every field is a function of (key index, writer, seq, length)
+
+var itTornSizes = []int{200, 120, 64, 33, 16, 9, 150, 40, 12, 8, 90, 89, 31, 10}
+
+func itTornVS(ki, w, seq, n int) y.ValueStruct {
+	v := make([]byte, n)
+	v[0] = byte(w)
+	v[1], v[2], v[3], v[4] = byte(seq>>24), byte(seq>>16), byte(seq>>8), byte(seq)
+	v[5], v[6] = byte(n>>8), byte(n)
+	v[7] = byte(ki)
+	f := byte(w*31 + seq*7 + n + ki*13)
+	for j := 8; j < n; j++ {
+		v[j] = f
+	}
+	return y.ValueStruct{
+		Meta:      byte(seq*5 + n),
+		UserMeta:  byte(seq>>8) ^ byte(w<<4) ^ byte(ki),
+		ExpiresAt: uint64(seq)*1000003 + uint64(w)*17 + uint64(n)<<40,
+		Value:     v,
+	}
+}
+
+// itTornValidate: "" iff meta, userMeta, expiresAt and every value byte are those of ONE
+// put (ki, w, seq, n) that can have been issued for this key.
+func itTornValidate(vs y.ValueStruct, ki, nw, maxSeq int) string {
+	v := vs.Value
+	if len(v) < 8 {
+		return fmt.Sprintf("value of length %d", len(v))
+	}
+	w := int(v[0])
+	seq := int(v[1])<<24 | int(v[2])<<16 | int(v[3])<<8 | int(v[4])
+	n := int(v[5])<<8 | int(v[6])
+	if w >= nw || seq >= maxSeq || int(v[7]) != ki {
+		return fmt.Sprintf("header %s names no put issued for this key", hx(v[:8]))
+	}
+	if n != len(v) {
+		return fmt.Sprintf("value written with length %d is returned with length %d", n, len(v))
+	}
+	want := itTornVS(ki, w, seq, n)
+	if !bytes.Equal(want.Value, v) {
+		return fmt.Sprintf("value bytes of put (writer %d, seq %d, len %d) mixed with another put: %s", w, seq, n, hx(v))
+	}
+	if vs.Meta != want.Meta || vs.UserMeta != want.UserMeta || vs.ExpiresAt != want.ExpiresAt {
+		return fmt.Sprintf("value of put (writer %d, seq %d) with meta/userMeta/expiresAt %d/%d/%d of another put (its own: %d/%d/%d)",
+			w, seq, vs.Meta, vs.UserMeta, vs.ExpiresAt, want.Meta, want.UserMeta, want.ExpiresAt)
+	}
+	return ""
+}
+
+// itHeldVS is a ValueStruct a reader keeps: Value aliases the arena.
+type itHeldVS struct {
+	how  string
+	ki   int
+	vs   y.ValueStruct
+	snap []byte
+}
+
+// recheck: a value once read must still be the same put, byte for byte.
+func (h *itHeldVS) recheck(nw, maxSeq int) string {
+	if m := itTornValidate(h.vs, h.ki, nw, maxSeq); m != "" {
+		return fmt.Sprintf("[skl-torn-value] ValueStruct obtained by %s is not one put any more: %s", h.how, m)
+	}
+	if !bytes.Equal(h.vs.Value, h.snap) {
+		return fmt.Sprintf("[skl-value-mutated] ValueStruct obtained by %s changed after it was read: was %s, now %s", h.how, hx(h.snap), hx(h.vs.Value))
+	}
+	return ""
+}
+
+func itTornHotKeys(rng *rand.Rand, nhot int) [][]byte {
+	// same user key AND same version are overwritten; neighbours share prefixes
+	var keys [][]byte
+	seen := map[string]bool{}
+	for len(keys) < nhot {
+		k := y.KeyWithTs(genUserKey(rng, 1, 3), uint64(rng.Intn(4)))
+		if !seen[string(k)] {
+			seen[string(k)] = true
+			keys = append(keys, k)
+		}
+	}
+	return keys
+}
+
+func itSpin(n int) {
+	for i := 0; i < n; i++ {
+		runtime.Gosched()
+	}
+}
+
+// itTornOnce: free-running writers and readers on hot keys.
+func itTornOnce(seed int64, nw, nhot, np, nr int, st *Stats) []string {
+	rng := rand.New(rand.NewSource(seed))
+	hot := itTornHotKeys(rng, nhot)
+	idx := map[string]int{}
+	for i, k := range hot {
+		idx[string(k)] = i
+	}
+	l := skl.NewSkiplist(int64(nw*np+nhot+16)*int64(256) + int64(nhot+4)*int64(skl.MaxNodeSize+64))
+	defer l.DecrRef()
+	var mu sync.Mutex
+	var msgs []string
+	report := func(m string) {
+		if m == "" {
+			return
+		}
+		mu.Lock()
+		if len(msgs) < 5 {
+			msgs = append(msgs, m)
+		}
+		mu.Unlock()
+	}
+	maxSeq := np + 1
+	for ki, k := range hot { // every key starts with the longest value (writer 0, seq np)
+		l.Put(k, itTornVS(ki, 0, np, itTornSizes[0]))
+	}
+	var stop atomic.Bool
+	var wg, rg sync.WaitGroup
+	for wr := 0; wr < nw; wr++ {
+		wg.Add(1)
+		go func(wr int) {
+			defer wg.Done()
+			r := rand.New(rand.NewSource(seed + int64(wr)*104729))
+			n := itTornSizes[0]
+			for seq := 0; seq < np; seq++ {
+				ki := r.Intn(len(hot))
+				// mostly walk down the size table (strictly shrinking runs), sometimes jump
+				if r.Intn(4) == 0 {
+					n = itTornSizes[r.Intn(len(itTornSizes))]
+				} else {
+					n = itTornSizes[(seq+wr)%len(itTornSizes)]
+				}
+				l.Put(hot[ki], itTornVS(ki, wr, seq, n))
+				if seq%64 == 0 {
+					runtime.Gosched()
+				}
+			}
+		}(wr)
+	}
+	for rd := 0; rd < nr; rd++ {
+		rg.Add(1)
+		go func(rd int) {
+			defer rg.Done()
+			r := rand.New(rand.NewSource(seed - int64(rd) - 1))
+			for !stop.Load() {
+				var held []itHeldVS
+				take := func(how string, ki int, vs y.ValueStruct) {
+					if m := itTornValidate(vs, ki, nw, maxSeq); m != "" {
+						report(fmt.Sprintf("[skl-torn-value] %s returned a ValueStruct that is not one put: %s", how, m))
+						return
+					}
+					held = append(held, itHeldVS{how, ki, vs, y.Copy(vs.Value)})
+				}
+				switch r.Intn(4) {
+				case 0, 1:
+					ki := r.Intn(len(hot))
+					take("Get", ki, l.Get(hot[ki]))
+				case 2, 3:
+					rev := r.Intn(2) == 0
+					it := l.NewUniIterator(rev)
+					for it.Rewind(); it.Valid(); it.Next() {
+						if ki, ok := idx[string(it.Key())]; ok {
+							take(fmt.Sprintf("UniIterator(reversed=%v).Value", rev), ki, it.Value())
+						}
+					}
+					it.Close()
+				}
+				itSpin(1 + r.Intn(4))
+				for j := range held {
+					report(held[j].recheck(nw, maxSeq))
+				}
+			}
+		}(rd)
+	}
+	wg.Wait()
+	stop.Store(true)
+	rg.Wait()
+	for ki, k := range hot {
+		if m := itTornValidate(l.Get(k), ki, nw, maxSeq); m != "" {
+			report("[skl-torn-value] final Get: " + m)
+		}
+	}
+	st.Inc("torn:writers:" + strconv.Itoa(nw))
+	st.Inc("torn:hot:" + strconv.Itoa(nhot))
+	return msgs
+}
+
+// itTornSeq: deterministic, channel-sequenced. For every round and every access path the
+// reader obtains the ValueStruct of a hot key, then the writer overwrites that key with a
+// strictly shorter value, then the reader re-checks what it holds.
+func itTornSeq(seed int64, rounds int, st *Stats) []string {
+	rng := rand.New(rand.NewSource(seed))
+	hot := itTornHotKeys(rng, 3)
+	sort.Slice(hot, func(a, b int) bool { return y.CompareKeys(hot[a], hot[b]) < 0 })
+	l := skl.NewSkiplist(1 << 20)
+	defer l.DecrRef()
+	var msgs []string
+	report := func(m string) {
+		if m != "" && len(msgs) < 5 {
+			msgs = append(msgs, m)
+		}
+	}
+	paths := []string{"Get", "Iterator.Seek+Value", "UniIterator(reversed=false).Value", "UniIterator(reversed=true).Value"}
+	maxSeq := rounds*len(paths)*2*len(hot) + 16
+	seq := 0
+	for ki, k := range hot {
+		l.Put(k, itTornVS(ki, 0, seq, 40))
+		seq++
+	}
+	for r := 0; r < rounds; r++ {
+		for _, path := range paths {
+			ki := rng.Intn(len(hot))
+			long := itTornSizes[rng.Intn(3)]    // 200, 120, 64
+			short := itTornSizes[3+rng.Intn(3)] // 33, 16, 9
+			toWriter := make(chan struct{})
+			toReader := make(chan struct{})
+			var wg sync.WaitGroup
+			wg.Add(2)
+			seqLong, seqShort := seq, seq+1
+			seq += 2
+			go func() { // writer
+				defer wg.Done()
+				l.Put(hot[ki], itTornVS(ki, 1, seqLong, long))
+				toReader <- struct{}{}
+				<-toWriter
+				l.Put(hot[ki], itTornVS(ki, 1, seqShort, short)) // strictly smaller encoding
+				toReader <- struct{}{}
+			}()
+			go func() { // reader
+				defer wg.Done()
+				<-toReader
+				var held []itHeldVS
+				take := func(ki int, vs y.ValueStruct) {
+					if m := itTornValidate(vs, ki, 2, maxSeq); m != "" {
+						report(fmt.Sprintf("[skl-torn-value] %s returned a ValueStruct that is not one put: %s", path, m))
+						return
+					}
+					held = append(held, itHeldVS{path, ki, vs, y.Copy(vs.Value)})
+				}
+				switch path {
+				case "Get":
+					take(ki, l.Get(hot[ki]))
+				case "Iterator.Seek+Value":
+					it := l.NewIterator()
+					it.Seek(hot[ki])
+					if it.Valid() {
+						take(ki, it.Value())
+					}
+					it.Close()
+				default:
+					it := l.NewUniIterator(strings.Contains(path, "=true"))
+					for it.Rewind(); it.Valid(); it.Next() {
+						for kj := range hot {
+							if bytes.Equal(it.Key(), hot[kj]) {
+								take(kj, it.Value())
+							}
+						}
+					}
+					it.Close()
+				}
+				if len(held) == 0 {
+					report("[skl-torn-value] " + path + " found no entry for a key that was Put")
+				}
+				toWriter <- struct{}{}
+				<-toReader
+				for j := range held {
+					report(held[j].recheck(2, maxSeq))
+				}
+			}()
+			wg.Wait()
+		}
+	}
+	st.Inc("tornseq:rounds:" + sizeBucket(rounds))
+	return msgs
 }
 
 func itStressOnce(seed int64, nw, nk, np, nr int, st *Stats) []string {
